@@ -3,6 +3,7 @@ package main
 import (
 	"fmt"
 	"go/token"
+	"sort"
 	"strings"
 
 	"golang.org/x/tools/go/ssa"
@@ -60,7 +61,27 @@ func runC16(c *Ctx) {
 			c.undecided("C16.logs-on-success", "receipt status", ex.Pos(), "receipt.SetReason(status) not found")
 		} else {
 			n := 0
+			// the collecting calls sit in Execute itself or in a local helper that is handed the status
+			type logSite struct {
+				cs     callSite
+				status ssa.Value
+			}
+			var sites []logSite
 			for _, cs := range c.calls(ex, byMethod("GetEventLogs", "GetBTPMessages")) {
+				sites = append(sites, logSite{cs, reason})
+			}
+			for g, site := range c.localHelpers(ex, false) {
+				for k, a := range site.Common().Args {
+					if a == reason && k < len(g.Params) {
+						for _, cs := range c.calls(g, byMethod("GetEventLogs", "GetBTPMessages")) {
+							sites = append(sites, logSite{cs, g.Params[k]})
+						}
+					}
+				}
+			}
+			sort.Slice(sites, func(i, j int) bool { return sites[i].cs.Pos() < sites[j].cs.Pos() })
+			for _, ls := range sites {
+				cs, reason := ls.cs, ls.status
 				n++
 				okG := false
 				for _, g := range guardsAt(cs.Instr) {
